@@ -35,6 +35,21 @@ MODELS = [
      'expressions("A")\ndx_dt = -a*x\n'
      'expressions("B")\ndy_dt = Conditional(Gt(x, 0.5), x - y, -y)\n'),
 ]
+MODELS += [
+    # atoms without a component next to named components; component names that contain each other
+    ('parameters(sigma=12.0)\nparameters("slow", rho=21.0, beta=2.4)\nstates(x=1.0)\nstates("slow", y=2.0, z=3.05)\n'
+     'dx_dt = sigma*(y - x)\n'
+     'expressions("slow")\na = rho - z\ndy_dt = x*a - y\ndz_dt = x*y - beta*z\n'),
+    ('parameters("Ca", k=2.0)\nparameters("Ca buffer", kb=0.5, btot=3.0)\nparameters("Ca buffer 2", kc=0.25)\n'
+     'states("Ca", ca=1.0)\nstates("Ca buffer", b=0.2)\nstates("Ca buffer 2", c=0.1)\n'
+     'expressions("Ca")\njrel = k*(1 - ca)\ndca_dt = jrel - jbuf - jc\n'
+     'expressions("Ca buffer")\njbuf = kb*ca*(btot - b)\ndb_dt = jbuf\n'
+     'expressions("Ca buffer 2")\njc = kc*ca - c\ndc_dt = jc\n'),
+    # an intermediate used only by the OTHER half (unused inside its own sub-model)
+    ('parameters("slow", k=0.5)\nparameters("fast", g=2.0)\nstates("slow", x=1.0)\nstates("fast", y=2.0)\n'
+     'expressions("slow")\nleak = k*x**2\ndx_dt = -k*x + y\n'
+     'expressions("fast")\ndy_dt = -g*y + leak\n'),
+]
 SCHEMES = ["explicit_euler", "generalized_rush_larsen"]
 
 
@@ -42,11 +57,15 @@ def tasks(tier, seed):
     out = []
     n = 0
     for text in MODELS:
-        comps = sorted(set(re.findall(r'expressions\("(\w+)"\)', text)))
+        comps = sorted(set(re.findall(r'expressions\("([^"]+)"\)', text)))
+        if re.search(r"^states\(\w", text, re.M):
+            comps.append("")
         for c in comps:
             bs = ["numpy", "jax", "c"] if tier != "quick" else [["numpy", "jax", "c"][n % 3], "numpy"]
             n += 1
             out.append({"family": "SPLIT", "id": text_id(text, c), "text": text, "opts": {"component": c, "backends": sorted(set(bs))}})
+            out.append({"family": "SPLIT", "id": text_id(text, c + "|ru"), "text": text,
+                        "opts": {"component": c, "backends": ["numpy"], "remove_unused": True}})
     if tier != "quick":
         for f in ["ORdmm_Land.ode"]:
             pass
@@ -90,14 +109,14 @@ def concrete_with_missing(view, fn, full, missing_names, inputs):
     return view.concrete(fn, inp)
 
 
-def check_side(prog, full, sub_ode, other_ode, tag, states, params, assigns, backend):
+def check_side(prog, full, sub_ode, other_ode, tag, states, params, assigns, backend, remove_unused=False):
     exp_missing = expected_missing(full, states, params, assigns)
     real_missing = dict(sub_ode.missing_variables)
     prog.fact(f"{tag}|missing-set", sorted(real_missing) == exp_missing, "MissingVariables",
               f"{tag}.missing_variables = {sorted(real_missing)}, names used but not defined = {exp_missing}")
     prog.fact(f"{tag}|states", sorted(s.name for s in sub_ode.states) == sorted(states), "StatesPartition",
               f"{tag} states {sorted(s.name for s in sub_ode.states)} expected {sorted(states)}")
-    view = checks.make_view(prog, sub_ode, backend, label=f"{tag}|{backend}|get_code", schemes=SCHEMES)
+    view = checks.make_view(prog, sub_ode, backend, label=f"{tag}|{backend}|get_code", schemes=SCHEMES, remove_unused=remove_unused)
     if view is None:
         return
     mi = view.index_map("missing")
@@ -140,7 +159,7 @@ def check_side(prog, full, sub_ode, other_ode, tag, states, params, assigns, bac
     # the OTHER side's missing_values must deliver exactly what this side misses
     if exp_missing and backend != "c":
         def gen():
-            return pipeline.gen_py(other_ode, backend=backend, missing_values=real_missing)
+            return pipeline.gen_py(other_ode, backend=backend, missing_values=real_missing, remove_unused=remove_unused)
         code = checks.generate(prog, f"{tag}|{backend}|other.missing_values|get_code", gen)
         if code is not None:
             from ..views import PyView
@@ -173,8 +192,9 @@ def work(task):
     prog.fact("partition", sorted(sA[0] + sB[0]) == sorted(full.states) and not (set(sA[0]) & set(sB[0])), "StatesPartition",
               f"states of A {sA[0]} and B {sB[0]} do not partition {sorted(full.states)}")
     for backend in task["opts"].get("backends", ["numpy"]):
-        check_side(prog, full, A, B, "A", *sA, backend)
-        check_side(prog, full, B, A, "B", *sB, backend)
+        ru = task["opts"].get("remove_unused", False)
+        check_side(prog, full, A, B, "A", *sA, backend, remove_unused=ru)
+        check_side(prog, full, B, A, "B", *sB, backend, remove_unused=ru)
     prog.nontrivial = bool(A.missing_variables) and bool(B.missing_variables)
     return prog.result()
 
